@@ -1,0 +1,49 @@
+//go:build verif
+
+// Verification hooks (add-only, compiled only with -tags verif). They expose
+// the unexported APK v2 merkle hasher and stream digester to the out-of-tree
+// correspondence harness in /verif; no existing behaviour is changed.
+package apk
+
+import (
+	"crypto"
+	"io"
+
+	"github.com/sassoftware/relic/v8/lib/zipslicer"
+)
+
+// VerifMerkle wraps the production merkleHasher.
+type VerifMerkle struct{ h *merkleHasher }
+
+// VerifNewMerkleHasher calls newMerkleHasher.
+func VerifNewMerkleHasher(hashes []crypto.Hash) *VerifMerkle {
+	return &VerifMerkle{h: newMerkleHasher(hashes)}
+}
+
+// Write calls merkleHasher.Write.
+func (m *VerifMerkle) Write(d []byte) (int, error) { return m.h.Write(d) }
+
+// Finish calls merkleHasher.Finish.
+func (m *VerifMerkle) Finish(inz *zipslicer.Directory, modified bool) ([][]byte, error) {
+	return m.h.Finish(inz, modified)
+}
+
+// State reports the number of blocks hashed so far, the concatenated block
+// digests per hash, and the number of buffered bytes.
+func (m *VerifMerkle) State() (count uint32, blocks [][]byte, buffered int) {
+	blocks = make([][]byte, len(m.h.blocks))
+	for i, b := range m.h.blocks {
+		blocks[i] = append([]byte{}, b...)
+	}
+	return m.h.count, blocks, m.h.n
+}
+
+// VerifDigestApkStream calls digestApkStream and returns the content digest
+// and the offset at which the signing block will be inserted.
+func VerifDigestApkStream(r io.Reader, hash crypto.Hash) ([]byte, int64, error) {
+	d, err := digestApkStream(r, hash)
+	if err != nil {
+		return nil, 0, err
+	}
+	return d.value, d.sigLoc, nil
+}
